@@ -9,10 +9,10 @@
 //     reads).  Contract: DataRead is entered only if the final size is known AND every byte up to it has been
 //     consumed by the application; otherwise the state is unchanged and the buffer is not reset (no buffered byte
 //     is thrown away); STOP_SENDING is only cancelled once everything up to the final size was received.
-//   * C04 "peer violations rejected": the `if self.receive_buffer.final_size().is_none() { acquire_window_up_to(..)?; }`
-//     statement: while the final size is unknown, no byte is accepted beyond the advertised window -- the flow
-//     controller's verdict (layer F + X: C04/rsfc.acquire_window_up_to/*) is propagated as the frame's error and
-//     nothing is written in that case.
+//   * C04 "peer violations rejected ... leaving its contents unchanged": the statements from `let data_end = ..` to the
+//     write into the reassembly buffer: while the final size is unknown, no byte is accepted beyond the advertised
+//     window -- the flow controller's verdict (layer F + X: C04/rsfc.acquire_window_up_to/*) is propagated as the
+//     frame's error and the write into the buffer happens only AFTER a positive verdict.
 // Callee contracts (each names the layer-F obligation that discharges it on the real callee):
 //   * Reassembler::{final_size, consumed_len, total_received_len}: C01/reassembler.final_size/{some_iff_known,eq_fin},
 //     C01/reassembler.consumed_len/eq_start, C01/reassembler.total_received_len/eq_start_plus_len (modular harness);
@@ -22,21 +22,41 @@
 // (`frame.is_fin`, `data_end`, `should_wake`).  NOT decided: the error mapping closure of `write_result.map_err`,
 // the waker logic, the Stopping / Reset arms, ReceiveStream::poll_request (the application read path).
 
+#[derive(Clone, Copy)]
 pub struct VarIntX { pub v: u64 }
-impl VarIntX { pub fn as_u64(&self) -> (r: u64) ensures r == self.v { self.v } }
+impl VarIntX {
+    pub fn as_u64(&self) -> (r: u64) ensures r == self.v { self.v }
+    // VarInt::checked_add_usize (s2n-quic-core varint; C05/X varint obligations): None iff the sum exceeds 2^62 - 1
+    #[verifier::external_body]
+    pub fn checked_add_usize(self, n: usize) -> (r: Option<VarIntX>)
+        ensures r is Some == (self.v + n <= 4611686018427387903), r is Some ==> r->Some_0.v == self.v + n,
+    { unimplemented!() }
+}
+#[derive(Clone, Copy)]
+pub struct DataX { pub len: Ghost<int> }
+impl DataX {
+    #[verifier::external_body]
+    pub fn len(&self) -> (r: usize) ensures r as int == self.len@ { unimplemented!() }
+}
+pub enum BufferError { OutOfRange, InvalidFin }
 
 #[derive(Clone, Copy, PartialEq, Eq, Structural)]
 pub struct TransportError { pub code: u64 }
+impl TransportError {
+    pub const FLOW_CONTROL_ERROR: TransportError = TransportError { code: 0x3 };
+    pub fn with_reason(self, reason: &'static str) -> (r: TransportError) ensures r == self { self }
+    pub fn with_frame_type(self, t: FrameTypeX) -> (r: TransportError) ensures r == self { self }
+}
 pub struct FrameTagX { pub v: u8 }
 pub struct FrameTypeX { pub v: u64 }
 impl FrameTagX { pub fn into(self) -> (r: FrameTypeX) { FrameTypeX { v: self.v as u64 } } }
 
-pub struct StreamFrameX { pub offset: VarIntX, pub is_fin: bool, pub tag_v: u8 }
+pub struct StreamFrameX { pub offset: VarIntX, pub is_fin: bool, pub tag_v: u8, pub data: DataX }
 impl StreamFrameX { pub fn tag(&self) -> (r: FrameTagX) { FrameTagX { v: self.tag_v } } }
 
 /// abstract view of buffer::Reassembler (contracts/spec/reassembly.rs cursors): consumed prefix, contiguous bytes
 /// received, optional final size
-pub struct ReceiveBufferX { pub start: Ghost<int>, pub received: Ghost<int>, pub fin: Ghost<Option<int>>, pub was_reset: Ghost<bool> }
+pub struct ReceiveBufferX { pub start: Ghost<int>, pub received: Ghost<int>, pub fin: Ghost<Option<int>>, pub was_reset: Ghost<bool>, pub write_attempted: Ghost<bool>, pub write_fin: Ghost<bool> }
 impl ReceiveBufferX {
     pub open spec fn inv(&self) -> bool {
         &&& 0 <= self.start@ <= self.received@ <= u64::MAX
@@ -52,6 +72,15 @@ impl ReceiveBufferX {
     pub fn total_received_len(&self) -> (r: u64) ensures r as int == self.received@ { unimplemented!() }
     #[verifier::external_body]
     pub fn reset(&mut self) ensures final(self).was_reset@ { unimplemented!() }
+    // Reassembler::write_at / write_at_fin: ghost record THAT a write was attempted (what it stores: layer F, C01 / C16)
+    #[verifier::external_body]
+    pub fn write_at(&mut self, offset: VarIntX, data: DataX) -> (r: Result<(), BufferError>)
+        ensures final(self).write_attempted@, final(self).write_fin@ == false, final(self).fin@ == old(self).fin@ || r is Ok,
+    { unimplemented!() }
+    #[verifier::external_body]
+    pub fn write_at_fin(&mut self, offset: VarIntX, data: DataX) -> (r: Result<(), BufferError>)
+        ensures final(self).write_attempted@, final(self).write_fin@ == true,
+    { unimplemented!() }
 }
 
 pub struct SyncX { pub stopped: Ghost<bool> }
@@ -84,20 +113,30 @@ pub struct ReceiveStream {
 }
 
 impl ReceiveStream {
-    // ---- flow control is enforced for every frame while the final size is unknown ---------------------------------
-    fn on_data_flow_control_gate(&mut self, frame: &StreamFrameX, data_end: VarIntX) -> (ret: Result<(), TransportError>)
-        requires old(self).receive_buffer.inv(),
+    // ---- nothing is written into the reassembly buffer before the flow-control verdict -----------------------------------
+    // statements from `let data_end = ..` up to (excluding) the error mapping of the write result
+    fn on_data_check_then_write(&mut self, frame: &StreamFrameX) -> (ret: Result<Result<(), BufferError>, TransportError>)
+        requires old(self).receive_buffer.inv(), !old(self).receive_buffer.write_attempted@,
         ensures
-            // a frame that ends beyond the advertised stream window is rejected with FLOW_CONTROL_ERROR (RFC 9000 4.1)
-            old(self).receive_buffer.fin@ is None && data_end.v as int > old(self).flow_controller.limit@
-                ==> ret is Err && ret->Err_0.code == 0x3,
-            // ... and only such a frame (with a known final size the buffer's own final-size check decides)
-            ret is Err ==> old(self).receive_buffer.fin@ is None && data_end.v as int > old(self).flow_controller.limit@,
+            // a frame whose end is not representable (offset + len > 2^62 - 1) is a FLOW_CONTROL_ERROR (RFC 9000 4.1 / 19.8)
+            // (rejected; the error CODE on this path is built inside a closure, `ok_or_else(|| ..)`, whose result Verus does
+            // not specify -- not decided here)
+            frame.offset.v + frame.data.len@ > 4611686018427387903 ==> ret is Err,
+            // a frame that ends beyond the advertised stream window is rejected with FLOW_CONTROL_ERROR while the final
+            // size is unknown (with a known final size the buffer's own final-size check decides)
+            old(self).receive_buffer.fin@ is None && frame.offset.v + frame.data.len@ > old(self).flow_controller.limit@
+                ==> ret is Err && (frame.offset.v + frame.data.len@ <= 4611686018427387903 ==> ret->Err_0.code == 0x3),
+            ret is Err ==> frame.offset.v + frame.data.len@ > 4611686018427387903
+                || (old(self).receive_buffer.fin@ is None && frame.offset.v + frame.data.len@ > old(self).flow_controller.limit@),
+            // ... and NOT A BYTE of it reaches the buffer: the write happens only after the verdict
+            ret is Err ==> !final(self).receive_buffer.write_attempted@,
+            final(self).receive_buffer.write_attempted@ ==> ret is Ok
+                && (old(self).receive_buffer.fin@ is Some || frame.offset.v + frame.data.len@ <= old(self).flow_controller.limit@),
+            ret is Ok ==> final(self).receive_buffer.write_attempted@ && final(self).receive_buffer.write_fin@ == frame.is_fin,
             final(self).state == old(self).state,
-            final(self).receive_buffer == old(self).receive_buffer,
     {
-//@ splice-stmts quic/s2n-quic-transport/src/stream/receive_stream.rs "ReceiveStream" on_data "from=if self.receive_buffer.final_size().is_none()"
-        Ok(())
+//@ splice-stmts quic/s2n-quic-transport/src/stream/receive_stream.rs "ReceiveStream" on_data "from=let data_end" "until=write_result.map_err" "subst=?transport::Error=>TransportError@@?buffer::Error=>BufferError"
+        Ok(write_result)
     }
 
     // ---- the only transition of on_data into DataRead ------------------------------------------------------------------
